@@ -194,6 +194,36 @@ pub fn %s() {
 }
 """ % (tier, lhs_ty, where, name, L_[0]))
                     n_h += 1
+    # aliasing operands: both Bytes are views of ONE buffer (same or different start, same or different length);
+    # an implementation shortcut on pointer identity must still answer like the slices
+    for rep, repname in enumerate(["Rep::Static", "Rep::Shared", "Rep::Promo", "Rep::Owner"]):
+        if ("PartialEq", None, "Bytes") in pairs or ("PartialEq", "Bytes", "Bytes") in pairs:
+            out.append("""// @h props=C14 tier=%s group=cmp note=aliasing_views_of_one_buffer_%s
+#[kani::proof]
+#[kani::unwind(7)]
+pub fn c14_alias_bytes_bytes_r%d() {
+    const K: usize = 4;
+    let a: [u8; K] = kani::any();
+    let full = mk_bytes(%s, &a);
+    let o1 = any_len(K);
+    let n = any_len(K - o1);
+    let o2 = any_len(K);
+    let k = any_len(K - o2);
+    let l = full.slice(o1..o1 + n);
+    let r = full.slice(o2..o2 + k);
+    let ml = &a[o1..o1 + n];
+    let mr = &a[o2..o2 + k];
+    assert!((l == r) == (ml == mr));
+    assert!((l != r) == (ml != mr));
+    assert!(l.partial_cmp(&r) == ml.partial_cmp(mr));
+    assert!(l.cmp(&r) == ml.cmp(mr));
+    assert!((l < r) == (ml < mr));
+    kani::cover!(o1 == o2 && n != k && n > 0 && k > 0, "same start, different length");
+    kani::cover!(o1 != o2 && n == k && ml == mr && n > 1, "different start, equal contents");
+    end_reached!();
+}
+""" % ("quick" if rep in (1, 2) else "thorough", repname.split("::")[1], rep, repname))
+            n_h += 1
     # family vacuity witness
     out.append("""// @h props=C14 tier=quick flags=witness group=cmp
 #[kani::proof]
